@@ -57,9 +57,11 @@ class FakeTCP:
         return ("198.51.100.77", 50000) if name == "peername" else default
 
 
-def client_conn(min_version=None, max_version=None):
+def client_conn(min_version=None, max_version=None, legacy=False):
     ctx = SSL.Context(SSL.TLS_CLIENT_METHOD)
     ctx.set_verify(SSL.VERIFY_NONE, lambda *a: True)
+    if legacy:
+        ctx.set_cipher_list(b"ALL:@SECLEVEL=0")      # before the Connection is created: it copies the context's settings
     if max_version is not None:
         ctx.set_max_proto_version(max_version)
     if min_version is not None:
@@ -69,7 +71,7 @@ def client_conn(min_version=None, max_version=None):
     return c
 
 
-async def exchange(handler, request=b"gemini://localhost/x\r\n", cut=None, client=None, plaintext_first=None):
+async def exchange(handler, request=b"gemini://localhost/x\r\n", cut=None, client=None, plaintext_first=None, server_ctx=None):
     """Returns dict(plaintext received by the client, eof, handler calls, server object)."""
     inner_box = []
 
@@ -77,7 +79,7 @@ async def exchange(handler, request=b"gemini://localhost/x\r\n", cut=None, clien
         p = sp.GeminiServerProtocol(handler, None)
         inner_box.append(p)
         return p
-    server = tp.TLSServerProtocol(factory, server_context())
+    server = tp.TLSServerProtocol(factory, server_ctx or server_context())
     tcp = FakeTCP()
     server.connection_made(tcp)
     if plaintext_first is not None:
@@ -224,17 +226,34 @@ def bank_c20():
     # handshakes below TLS 1.2 are refused
     for name, ver in (("TLSv1", SSL.TLS1_VERSION), ("TLSv1.1", SSL.TLS1_1_VERSION)):
         try:
-            cli = client_conn(max_version=ver)
-            try:
-                cli.get_context().set_cipher_list(b"ALL:@SECLEVEL=0")
-            except Exception:  # noqa: BLE001
-                pass
+            cli = client_conn(max_version=ver, legacy=True)
         except Exception:  # noqa: BLE001
             continue
         r = asyncio.run(exchange(handler, client=cli))
         if r["plaintext"] or r["inner"]:
             return dict(confirmed=True, input=dict(client_max_version=name), observed=dict(negotiated=r["version"], response=repr(r["plaintext"][:40])),
                         clause="no handshake below TLS 1.2 completes")
+    # ... also on a host whose OpenSSL policy allows old versions (security level 0): the floor must be nauyaca's own
+    d = tempfile.mkdtemp()
+    cert, key = generate_self_signed_cert("localhost", key_size=2048, valid_days=2)
+    open(os.path.join(d, "c.pem"), "wb").write(cert)
+    open(os.path.join(d, "k.pem"), "wb").write(key)
+    for rc in (False, True):
+        lax = create_pyopenssl_server_context(os.path.join(d, "c.pem"), os.path.join(d, "k.pem"), request_client_cert=rc)
+        try:
+            lax.set_cipher_list(b"ALL:@SECLEVEL=0")
+        except Exception:  # noqa: BLE001
+            continue
+        for name, ver in (("TLSv1", SSL.TLS1_VERSION), ("TLSv1.1", SSL.TLS1_1_VERSION)):
+            try:
+                cli = client_conn(max_version=ver, legacy=True)
+            except Exception:  # noqa: BLE001
+                continue
+            r = asyncio.run(exchange(handler, client=cli, server_ctx=lax))
+            if r["plaintext"] or r["inner"]:
+                return dict(confirmed=True, input=dict(client_max_version=name, host_policy="OpenSSL security level 0 (legacy crypto policy)", request_client_cert=rc),
+                            observed=dict(response=repr(r["plaintext"][:40]), handler_calls=len(calls)),
+                            clause="no handshake below TLS 1.2 completes, whatever the host's OpenSSL policy: the context itself must carry the floor")
     return dict(confirmed=False, reason="plaintext and old protocol versions are refused")
 
 
@@ -266,7 +285,44 @@ def bank_c15():
             cb()
             if not tcp.closed:
                 return dict(confirmed=True, input=dict(event="handshake timer fires mid-handshake"), observed="TCP connection still open", clause="handshake timeout")
-            return dict(confirmed=False, reason=f"handshake timer armed ({delay}s) and closes a stalled connection")
+            # after the handshake: a peer that goes silent (before, within or after its request line) is answered 40 when
+            # the request timer fires - and the TCP connection is closed although the peer never sends its close_notify
+            for sent in (b"", b"gemini://localhost/par", b"titan://localhost/up;size=50;mime=text/plain\r\npartial"):
+                timers.clear()
+                srv = tp.TLSServerProtocol(lambda: sp.GeminiServerProtocol(lambda r: GeminiResponse(20, "text/plain", "x"), None), server_context())
+                tcp2 = FakeTCP()
+                srv.connection_made(tcp2)
+                cli = client_conn()
+                for _ in range(12):                      # pump the handshake
+                    try:
+                        cli.do_handshake()
+                    except SSL.WantReadError:
+                        pass
+                    try:
+                        out = cli.bio_read(65536)
+                        srv.data_received(out)
+                    except SSL.WantReadError:
+                        pass
+                    for ch in tcp2.chunks:
+                        cli.bio_write(ch)
+                    tcp2.chunks.clear()
+                    if srv.handshake_complete:
+                        break
+                if not srv.handshake_complete:
+                    break
+                if sent:
+                    cli.send(sent)
+                    srv.data_received(cli.bio_read(65536))
+                req = [t for t in timers if getattr(t[1], "__name__", "") == "_handle_timeout" and not t[2].cancelled()]
+                if not req:
+                    return dict(confirmed=True, input=dict(backend="PyOpenSSL", received_after_handshake=repr(sent)), observed="no request timer armed for a silent peer",
+                                clause="a peer silent after the handshake is disconnected within the request timeout")
+                req[-1][1]()
+                if not tcp2.closed:
+                    return dict(confirmed=True, input=dict(backend="PyOpenSSL", received_after_handshake=repr(sent), event="request timer fires; the peer never answers the close_notify"),
+                                observed=dict(tcp_closed=False, bytes_to_peer=sum(len(c) for c in tcp2.chunks)),
+                                clause="a silent peer is disconnected: after the 40 response the TCP connection is closed, not left waiting for the peer's close_notify")
+            return dict(confirmed=False, reason=f"handshake timer armed ({delay}s) and closes a stalled connection; silent peers after the handshake are closed")
         finally:
             loop.call_later = real_call_later
             for _, _, h in timers:
